@@ -157,6 +157,8 @@ def read_short_bytes(data, cur):
     (strlen,) = struct.unpack(">h", data[cur : cur + 2])
     if strlen == -1:
         return None, cur + 2
+    if strlen < 0:
+        raise BufferUnderflowError("Invalid short string length {:,d} at offset {:,d}".format(strlen, cur))
 
     cur += 2
     if len(data) < cur + strlen:
@@ -183,6 +185,8 @@ def read_int_string(data, cur):
     (strlen,) = struct.unpack(">i", data[cur : cur + 4])
     if strlen == -1:
         return None, cur + 4
+    if strlen < 0:
+        raise BufferUnderflowError("Invalid long string length {:,d} at offset {:,d}".format(strlen, cur))
 
     cur += 4
     if len(data) < cur + strlen:
